@@ -21,6 +21,7 @@ THEOREMS = [
     "Nix.C19.C19_roundtrip_source_formats",
     "Nix.C19.C19_no_unguarded_stamp",
     "Nix.C19.C19_unguarded_would_stamp",
+    "Nix.C19.C19_stamp_sites",
     "Nix.C19.C19_foreign_calls",
     "Nix.C19.C19_no_foreign_elsewhere",
     "Nix.C19.C19_created_fixed",
